@@ -15,7 +15,7 @@
      targets       masked target sites: undefined in new variables, pre-existing cells untouched
    Every disagreement goes through Check.disagree.
 """
-import json, os, collections, math
+import json, os, collections, math, time
 import vlib
 from vlib import Check, Broken, log
 
@@ -239,7 +239,7 @@ class Comparer:
         if op == "reduce":
             # rows of createReduce, getSampleNumber(true), compressed column, getRanksActive, getActiveArray
             lists = split_lists(M["i"] + [-1])
-            want = [decl, [len(decl)], decl, decl, decl]
+            want = [decl[0], [decl[1]], decl[2], decl[3], decl[4]]
             return None if lists == want else "rows / count / compressed column / ranks / active array %r, expected %r" % (lists, want)
         if op in ("neigh_m", "neigh_mb"):
             lists = split_lists(M["i"])
@@ -384,84 +384,100 @@ def run_layout(ck, tier, name, maxn, geom, exe, workers, tlc_workers, totals):
     ops = LAYOUTS[name][7]
     feat_count = collections.Counter()
     dev_count = collections.Counter()
-    hang_budget = {"n": HANG_PROBE if tier == "quick" else 4 * HANG_PROBE, "all_hung": True, "skipped": 0}
-    chunk, nchunk = [], 0
+    nbatch = [0]
+    t_harness = [0.0]
 
-    def flush():
-        nonlocal chunk, nchunk
-        if not chunk:
-            return
-        nchunk += 1
-        inp = os.path.join(w, "in_%s_%d.ndjson" % (name, nchunk))
+    def is_hang(o):
+        return bool(o["dev"] and o["code"] and (o["code"] == [[0, 0]] or (o["kind"] == "datasrc" and o["code"][0] == [[0, 0]])))
+
+    def execute(batch):
+        """batch: list of (case, [ops to run]); runs the harness and compares; returns the results per (id, op)"""
+        if not batch:
+            return {}
+        nbatch[0] += 1
+        inp = os.path.join(w, "in_%s_%d.ndjson" % (name, nbatch[0]))
         byid = {}
         with open(inp, "w") as f:
-            for c in chunk:
-                run = []
-                for o in c["ops"]:
-                    hang = o["dev"] and o["code"] and (o["code"] == [[0, 0]] or (o["kind"] == "datasrc" and o["code"][0] == [[0, 0]]))
-                    if hang:
-                        # a hang predicted by the transcription costs its time-out: executed on a limited number
-                        # of patterns as long as every one of them does hang
-                        if hang_budget["n"] <= 0 and hang_budget["all_hung"]:
-                            hang_budget["skipped"] += 1
-                            continue
-                        hang_budget["n"] -= 1
-                        o["_hang"] = True
-                    run.append([o["op"], o["nk"]])
+            for c, olist in batch:
                 hc = {k: c[k] for k in ("id", "n", "nvar", "hasF", "hasV", "sel", "c", "z", "f", "v", "keep")}
-                hc["run"] = run
+                hc["run"] = [[o["op"], o["nk"]] for o in olist]
                 f.write(json.dumps(hc, separators=(",", ":")) + "\n")
                 byid[c["id"]] = c
-        outp = os.path.join(w, "out_%s_%d" % (name, nchunk))
-        vlib.run_harness(exe, [os.path.join(w, "config.json"), inp, outp, workers], timeout=3000)
-        nres = 0
+        outp = os.path.join(w, "out_%s_%d" % (name, nbatch[0]))
+        t0 = time.time()
+        vlib.run_harness(exe, [os.path.join(w, "config.json"), inp, outp, workers], timeout=6000)
+        t_harness[0] += time.time() - t0
+        results = {}
         for k in range(workers):
             p = "%s.%d.ndjson" % (outp, k)
             for r in vlib.read_ndjson(p):
                 c = byid[r["id"]]
                 o = next(x for x in c["ops"] if x["op"] == r["op"])
-                if o.get("_hang") and not ("crash" in r and r["crash"].startswith("timeout")):
-                    hang_budget["all_hung"] = False
                 cmp_.compare(c, o, r)
-                nres += 1
-                if nres % 997 == 1:
+                results[(r["id"], r["op"])] = r
+                if len(results) % 997 == 1:
                     ck.sample({"pattern": {q: c[q] for q in ("sel", "c", "z", "f", "v")}, "op": r["op"],
                                "keep": c["keep"][o["nk"]], "expected": o["decl"],
                                "masked": r.get("M"), "reduced": r.get("R")}, cap=8)
             os.remove(p)
         os.remove(inp)
-        expected = sum(len(c["ops"]) for c in chunk) - 0
-        chunk = []
-        return nres
+        want = sum(len(ol) for _, ol in batch)
+        if len(results) != want:
+            raise Broken("layout %s: %d results for %d runs" % (name, len(results), want))
+        return results
 
-    nres_total = 0
+    # 1. a hang predicted by the transcription costs its time-out: probe a limited number of them first; the
+    #    others are executed only if one of the probes returns
+    nprobe = HANG_PROBE if tier == "quick" else 3 * HANG_PROBE
+    probes, probed = [], set()
+    with open(casesp) as f:
+        for line in f:
+            c = json.loads(line)
+            hl = [o for o in c["ops"] if is_hang(o)]
+            if hl and len(probes) < nprobe:
+                probes.append((c, hl))
+                probed.update((c["id"], o["op"]) for o in hl)
+    pres = execute(probes)
+    all_hung = all("crash" in r and r["crash"].startswith("timeout") for r in pres.values())
+    nres_total = len(pres)
+    skipped = 0
+    # 2. everything else
+    batch = []
     with open(casesp) as f:
         for line in f:
             c = json.loads(line)
             for ft in FEATS:
                 if c["feat"][ft]:
                     feat_count[ft] += 1
+            olist = []
             for o in c["ops"]:
                 if o["dev"]:
                     dev_count[o["op"]] += 1
-            chunk.append(c)
-            if len(chunk) >= 3000:
-                nres_total += flush() or 0
-    nres_total += flush() or 0
+                if (c["id"], o["op"]) in probed:
+                    continue
+                if is_hang(o) and all_hung and probes:
+                    skipped += 1
+                    continue
+                olist.append(o)
+            batch.append((c, olist))
+            if len(batch) >= 3000:
+                nres_total += len(execute(batch))
+                batch = []
+    nres_total += len(execute(batch))
     os.remove(casesp)
-    if hang_budget["skipped"] and not hang_budget["all_hung"]:
-        raise Broken("predicted hangs were skipped although one of the probes did not hang")
     totals["cases"] += n_emitted[0]
     totals["runs"] += nres_total
-    totals["skipped_predicted_hang"] += hang_budget["skipped"]
+    totals["skipped_predicted_hang"] += skipped
+    totals["probed_hangs"] += len(pres)
     for k, v in cmp_.counts.items():
         totals["cmp"][k] += v
     for k, v in feat_count.items():
         totals["feat"][k] += v
     for k, v in dev_count.items():
         totals["dev"][k] += v
-    log("[C05] %s: %d patterns x %d operations = %d runs compared (%s)" %
-        (name, n_emitted[0], len(ops), nres_total, dict(cmp_.counts)))
+    log("[C05] %s: %d patterns x %d operations: %d runs compared in %.1fs, %d predicted hangs probed (all hung: %s), %d not "
+        "executed; %s" % (name, n_emitted[0], len(ops), nres_total, t_harness[0], len(pres), all_hung, skipped,
+                          {k: v for k, v in cmp_.counts.items() if not k.startswith("model_")}))
 
 
 def run_targets(ck, aux, exe, workers, totals):
@@ -503,7 +519,7 @@ def run(tier):
     aux = vlib.tlc_emit_json("EmitUsableAux", auxcfg, os.path.join(ck.work, "aux.json"))
     geom = dict(aux["geom"], seed=vlib.seed())
     json.dump(geom, open(os.path.join(ck.work, "config.json"), "w"))
-    totals = {"states": 0, "transitions": 0, "cases": 0, "runs": 0, "skipped_predicted_hang": 0,
+    totals = {"states": 0, "transitions": 0, "cases": 0, "runs": 0, "skipped_predicted_hang": 0, "probed_hangs": 0,
               "cmp": collections.Counter(), "feat": collections.Counter(), "dev": collections.Counter()}
     for name, maxn in TIERS[tier]:
         run_layout(ck, tier, name, maxn, geom, exe, workers, tlc_workers, totals)
@@ -525,6 +541,7 @@ def run(tier):
     ck.cov["comparisons"] = dict(totals["cmp"])
     ck.cov["model_deviations_found_by_tlc_per_operation"] = dict(totals["dev"])
     ck.cov["predicted_hangs_not_executed"] = totals["skipped_predicted_hang"]
+    ck.cov["predicted_hangs_probed"] = totals["probed_hangs"]
     ck.cov["layouts"] = [{"layout": n, "max_samples": m, "nvar": LAYOUTS[n][0], "ops": LAYOUTS[n][7]} for n, m in TIERS[tier]]
     ck.cov["rule"] = ("every Db pattern enumerated by TLC (selection cell x coordinates x each variable x external drift x "
                       "measurement error, per sample) x every operation of the catalogue, executed on the real masked Db, "
